@@ -142,7 +142,10 @@ def coq_case(s, r):
 
     def on(x):
         return "None" if x is None else "(Some %d)" % x
-    if r["new"][0] == "ok":
+    if r["new"][0] == "ok" and not all(isinstance(v, int) and not isinstance(v, bool) for _k, v in r["new"][2]):
+        # the implementation decoded something that is not a number (nested data): the model knows no such value — a disagreement, not a crash
+        en, ed = "Raise (OtherExn \"non-integer value in the decoded sense data\")", "Raise KeyError"
+    elif r["new"][0] == "ok":
         d = "[" + "; ".join("(%s, VI %d)" % (cstr(k), v) for k, v in r["new"][2]) + "]"
         en = "Ok (%d, %s, %s, %s)" % (r["new"][1], d, on(r["new"][3]), on(r["new"][4]))
         if r["str"][0] == "ok":
